@@ -200,6 +200,41 @@ def rule_r1(ctx, rid="C17.R1"):
             ctx.r.ok(rid, "constructor called with a freshly created file (%s)" % txt, s.loc)
         else:
             ctx.r.violation(rid, key_of(s.func, None, "init-nonfresh-file"), "FileBasedBuffer.__init__ receives %s, not a freshly created file" % txt, s.loc)
+    # the constructors of the concrete representations hand their source on to the migrating constructor: a migration
+    # (bytes -> BytesIO -> temp file) that builds the new representation without it starts empty and drops what was queued
+    base_init = f
+    src_name = base_init.params[2]
+    nsub = 0
+    for k in sorted(p.classes.values(), key=lambda k: k.qual):
+        if k.qual == "buffers.FileBasedBuffer" or base_init.cls not in k.mro or k.name == "ReadOnlyFileBasedBuffer":
+            continue
+        ki = k.methods.get("__init__")
+        if ki is None or len(ki.params) < 2:
+            continue
+        nsub += 1
+        src = ki.params[1]
+        gk = cfg_of(ki)
+        inits = []
+        for nd, c in find_calls(gk, lambda c: isinstance(c.func, ast.Attribute) and c.func.attr == "__init__"):
+            via_super = isinstance(c.func.value, ast.Call) and dotted(c.func.value.func) == "super"
+            pos = list(c.args) if via_super else list(c.args[1:])
+            bound = pos[1] if len(pos) >= 2 else None
+            for kw in c.keywords:
+                if kw.arg == src_name:
+                    bound = kw.value
+            inits.append((nd, c, bound))
+        bad = [(nd, c, b) for (nd, c, b) in inits if not (isinstance(b, ast.Name) and b.id == src)]
+        nones = [x for x in gk.nodes if x.kind == "branch" and isinstance(x.ast, ast.Compare) and dotted(x.ast.left) == src and isinstance(x.ast.comparators[0], ast.Constant) and x.ast.comparators[0].value is None
+                 and ((isinstance(x.ast.ops[0], ast.Is) and x.polarity) or (isinstance(x.ast.ops[0], ast.IsNot) and not x.polarity))]
+        nones += [x for x in gk.nodes if x.kind == "branch" and dotted(x.ast) == src and x.polarity is False]
+        if bad:
+            nd, c, b = bad[0]
+            ctx.r.violation(rid, key_of(ki, None, "source-not-forwarded"), "%s calls the migrating constructor as %s: its source `%s` is not handed on, a migration to this representation drops every queued byte" % (ki.qual, norm(c)[:70], src), ki.loc(nd.ast))
+        elif not inits or gk.path(gk.entry, gk.exit, avoid=[nd for nd, _c, _b in inits] + nones, follow_exc=False) is not None:
+            ctx.r.violation(rid, key_of(ki, None, "source-not-forwarded"), "%s can finish without handing its source `%s` to the migrating constructor: a migration to this representation drops every queued byte" % (ki.qual, src), ki.loc())
+        else:
+            ctx.r.ok(rid, "%s hands `%s` on to the migrating constructor (skipped only when it is None)" % (ki.qual, src), ki.loc())
+    ctx.r.floor(rid, nsub, 2, "constructors of concrete file-based representations")
     ctx.r.note("c17_paths", n_paths)
     ctx.r.floor(rid, n_paths, 6, "symbolic paths through FileBasedBuffer methods")
 
